@@ -355,8 +355,9 @@ example : expected [Lex.pct 53 [48], .dim 49 [] 112 [120], .hash 102 [48, 48]] =
 
 /-! ## T5.6 for the remaining classes: S, CDC, COMMENT, STRING, INVALID, FUNCTION, URI, UNICODE-RANGE
 
-`Lex2` (Lemmas/TokLex2.lean) adds to `Lex`: STRING (quote `"` or `'`, a body without backslash, line break or the
-delimiter — the other quote may occur —, the same quote), FUNCTION (plain identifier other than `and` in any letter
+`Lex2` (Lemmas/TokLex2Sep.lean) adds to `Lex`: STRING (quote `"` or `'`, a body without backslash, line break or the
+delimiter — the other quote may occur —, the same quote; `strI`: ANY body made of string items, with escapes and line
+continuations, value = `stringValue`), IDENT with one or two leading hyphens, FUNCTION (plain identifier other than `and` in any letter
 case, `(`), URI (`url(` in any letter case, an unquoted body of printable ASCII other than quotes, `)`, backslash and
 white space, `)`), UNICODE-RANGE (`U+`/`u+`, one to six hex digits or `?`), COMMENT (`/*`, any body in which no `*/` ends,
 `*/`) and CDC. `render2` joins the lexemes with single spaces; `expectedAll` lists (type, value) with an S token between
@@ -384,6 +385,12 @@ theorem lexeme_separation_all_fullsheet (doC : Bool) (ts : List Lex2) (h : ∀ t
     (tokenize (render2 ts) true doC).tokens.map proj =
       (expectedAll ts).filter (fun p => doC || p.1 != "COMMENT") ++ [("EOF", [])] :=
   tokenize_lexemes2_full doC ts h hcs
+
+/-- IDENT that starts with one or two hyphens (`-moz-x`, `--var`), followed by the end of the text or a space -/
+theorem ident_dash_class (doC : Bool) (n : Nat) (hn : n = 1 ∨ n = 2) (c : Nat) (cs stop : Cps)
+    (hc : inR nameStart c = true) (hcs : ∀ x ∈ cs, inR identRest x = true) (hs : Sep stop) :
+    scan false doC (dashes n ++ (c :: cs ++ stop)) productions = .hit "IDENT" (n + (c :: cs).length) :=
+  scan_ident_dash doC n hn c cs stop hc hcs hs
 
 /-- S: a run of white space (tab, CR, LF, FF, space) up to the end of the text or a code point that is not white
 space -/
